@@ -66,6 +66,37 @@ def _tree(draw, species, params, depth):
     return [op, sub()]
 
 
+def _has_symbols(tree):
+    return tree[0] in ("sym", "t", "vol") or (tree[0] != "num" and any(_has_symbols(a) for a in tree[1:]))
+
+
+def _fractional_exponent(expo):
+    return not (expo[0] == "num" and float(expo[1]) == int(float(expo[1])))
+
+
+def _contains_fractional_power(tree):
+    if tree[0] in ("num", "sym", "t", "vol"):
+        return False
+    if tree[0] == "pow" and _fractional_exponent(tree[2]):
+        return True
+    return any(_contains_fractional_power(a) for a in tree[1:])
+
+
+def _flatten_constant_power_towers(tree):
+    """A fractional power of a *constant* sub-expression that itself contains a fractional power, e.g.
+    (1e-1/6^(1/4))^(5/2), makes sympy's sympify - to which bioscrape hands the text - spin for minutes (a property of the
+    pinned sympy, DESIGN section 12).  The outer exponent of such a tower becomes 2.  Returns (tree, changed)."""
+    if tree[0] in ("num", "sym", "t", "vol"):
+        return tree, False
+    parts = [_flatten_constant_power_towers(a) for a in tree[1:]]
+    out = [tree[0]] + [p_[0] for p_ in parts]
+    changed = any(p_[1] for p_ in parts)
+    if out[0] == "pow" and _fractional_exponent(out[2]) and not _has_symbols(out[1]) and _contains_fractional_power(out[1]):
+        out[2] = ["num", 2.0, "2"]
+        changed = True
+    return out, changed
+
+
 def _clean(tree):
     """Strip None text entries of num nodes."""
     if tree[0] == "num":
@@ -87,6 +118,7 @@ def expr_cases(draw, max_depth=5):
     params = [n for n in allnames if n in PARAM_NAMES and n not in species][:npar]
     depth = draw(st.sampled_from([1, 2, 2, 3, 3, 4, 5][:max_depth + 2]))
     tree = _clean(_tree(draw, species, params, depth))
+    tree, tower = _flatten_constant_power_towers(tree)
     while ref.tree_depth(tree) > 5:          # the property quantifies over depth <= 5
         tree = tree[1] if tree[0] not in ("num", "sym", "t", "vol") else ["num", 1.0, "1"]
     style = {"printer": draw(st.sampled_from(["full", "min", "min"])),
@@ -110,7 +142,7 @@ def expr_cases(draw, max_depth=5):
     inject = draw(st.sampled_from([None] * 6 + ["unknown", "unknown", "unsupported"]))
     case = {"kind": "expr", "species": species, "params": params, "tree": tree, "style": style, "points": points,
             "surface": surface, "inject": inject, "rule_via_parameter": draw(st.booleans()),
-            "rule_kind": draw(st.sampled_from(["assignment", "assignment", "ode"]))}
+            "rule_kind": draw(st.sampled_from(["assignment", "assignment", "ode"])), "tower_avoided": tower}
     if inject == "unknown":
         case["unknown"] = draw(st.sampled_from(UNKNOWN_NAMES))
     if inject == "unsupported":
@@ -205,6 +237,8 @@ def check(case):
     s2i = {s: i for i, s in enumerate(species)}
     p2i = {p: i for i, p in enumerate(params)}
     text = render(case)
+    if case.get("tower_avoided"):
+        res.label("generator:constant_power_tower_avoided")
     ops = ref.tree_ops(tree)
     syms = ref.tree_symbols(tree)
     # printer self-check against Python's parser (a printer bug is a harness error, never a violation)
